@@ -11,7 +11,7 @@ D = 'dashlive/scte35'
 
 def world():
     w = {'__bases__': {'SegmentationDescriptor': ['SpliceDescriptor'], 'TimeDescriptor': ['SpliceDescriptor'],
-                       'AvailDescriptor': ['SpliceDescriptor']},
+                       'AvailDescriptor': ['SpliceDescriptor'], 'BinarySignal': ['MpegSectionTable']},
          '__ctors__': {'BitsFieldWriter': ctor_writer, 'BitsFieldReader': ctor_reader}}
     w['consumed'] = lambda t: z3.BoolVal(t.cursor == len(t.fields) and t.partial == 0)
     w['nbits'] = lambda t: t.total()
@@ -192,10 +192,112 @@ TIME_DESCRIPTOR = Contract(
     witness_terms=lambda w: (lambda ev: {k: ev(z3.Int(k)) for k in ('TAI_seconds', 'TAI_ns', 'UTC_offset')}),
 )
 
+# ----------------------------------------------------------------------------- the whole signal (section table + CRC)
+ST = 'dashlive/mpeg/section_table.py'
+CUEI = 0x43554549
+
+
+def signal_obj(w):
+    seg = seg_obj(w)
+    seg.f.update(tag=2, identifier=CUEI, length=0)
+    si = si_obj(True)(w)
+    si.f['splice_event_cancel_indicator'] = False
+    seg.f['segmentation_event_cancel_indicator'] = False
+    return Obj('BinarySignal', {
+        'table_id': 0xFC, 'section_syntax_indicator': False, 'private_indicator': False, 'sap_type': z3.Int('sap_type'),
+        'section_length': 0, 'protocol_version': z3.Int('protocol_version'), 'encrypted_packet': False,
+        'encryption_algorithm': z3.Int('encryption_algorithm'), 'pts_adjustment': z3.Int('pts_adjustment'),
+        'cw_index': z3.Int('cw_index'), 'tier': z3.Int('tier'), 'splice_schedule': None, 'splice_insert': si,
+        'time_signal': None, 'descriptors': PyList([seg])})
+
+
+class Tags:
+    def getitem(self, eng, tag):
+        t = z3.simplify(zint(tag))
+        if z3.is_int_value(t) and t.as_long() == 2:
+            return Opaque('class:SegmentationDescriptor')
+        raise Unsupported('descriptor tag is not the constant 2 on this path')
+
+
+def signal_sequel(eng, env_after, value):
+    bits = env_after['w'].bits
+    bits.cursor, bits.partial = 0, 0
+    return {'cls': Opaque('class:BinarySignal'), 'src': bits, 'size': None, 'self': env_after['self'], 'dest': None,
+            '__bits__': bits}
+
+
+SIGNAL = Contract(
+    key=f'{ST}:MpegSectionTable.encode', variant='scte35-splice-insert-with-segmentation-descriptor', props=['C14'],
+    env=lambda w: {'self': signal_obj(w), 'dest': None},
+    requires=[('header', '0 <= self.sap_type and self.sap_type < 4 and 0 <= self.protocol_version and self.protocol_version < 256 and '
+                         '0 <= self.encryption_algorithm and self.encryption_algorithm < 64 and 0 <= self.pts_adjustment and '
+                         'self.pts_adjustment < 8589934592 and 0 <= self.cw_index and self.cw_index < 256 and 0 <= self.tier and self.tier < 4096'),
+              ('insert', '0 <= self.splice_insert.splice_event_id and self.splice_insert.splice_event_id < 4294967296 and '
+                         '0 <= self.splice_insert.unique_program_id and self.splice_insert.unique_program_id < 65536 and '
+                         '0 <= self.splice_insert.avail_num and self.splice_insert.avail_num < 256 and '
+                         '0 <= self.splice_insert.avails_expected and self.splice_insert.avails_expected < 256 and '
+                         '0 <= self.splice_insert.splice_time.pts and self.splice_insert.splice_time.pts < 8589934592 and '
+                         '0 <= self.splice_insert.break_duration.duration and self.splice_insert.break_duration.duration < 8589934592'),
+              ('descriptor', ' and '.join(f'0 <= self.descriptors[0].{f} and self.descriptors[0].{f} < {2 ** b}' for f, b in
+                                          (('segmentation_event_id', 32), ('device_restrictions', 2), ('segmentation_type', 8),
+                                           ('segment_num', 8), ('segments_expected', 8), ('sub_segment_num', 8),
+                                           ('sub_segments_expected', 8)))),
+              ('descriptor_duration', 'True if is_none(self.descriptors[0].segmentation_duration) else '
+                                      '(0 <= optval(self.descriptors[0].segmentation_duration) and '
+                                      'optval(self.descriptors[0].segmentation_duration) < 1099511627776)')],
+    models={'attr:cls.TAGS': lambda eng: Tags(), 'attr:cls.__name__': lambda eng: Opaque('name'),
+            'attr:DescriptorClass.__name__': lambda eng: Opaque('name'),
+            'r.read_bytes': lambda eng, e, a, kw: None},
+    ctors={'Crc32Mpeg2': lambda eng, a, kw: __import__('pyvc.models.bittrace', fromlist=['CrcModel']).CrcModel()},
+    modifies=['self.section_length', 'self.splice_command_type', 'self.splice_command_length', 'self.descriptor_loop_length',
+              'self.splice_insert.program_splice_flag', 'self.splice_insert.duration_flag',
+              'self.descriptors'],
+    mod_types={'self.splice_command_type': 'int', 'self.splice_command_length': 'int', 'self.descriptor_loop_length': 'int',
+               'self.splice_insert.program_splice_flag': 'bool', 'self.splice_insert.duration_flag': 'bool'},
+    sequel={'file': ST, 'qual': 'MpegSectionTable.parse', 'env': signal_sequel},
+    ensures=[
+        ('crc_valid', "result['crc_valid']"),
+        ('header', "result['table_id'] == 252 and result['sap_type'] == old(self.sap_type) and "
+                   "result['protocol_version'] == old(self.protocol_version) and result['pts_adjustment'] == old(self.pts_adjustment) and "
+                   "result['cw_index'] == old(self.cw_index) and result['tier'] == old(self.tier) and result['splice_command_type'] == 5"),
+        ('lengths', "result['section_length'] * 8 == nbits(__bits__) - 24 and "
+                    "result['splice_command_length'] == (15 if old(self.splice_insert.splice_immediate_flag) else 20) and "
+                    "result['header_size'] == 3"),
+        ('splice', "result['splice_insert']['splice_event_id'] == old(self.splice_insert.splice_event_id) and "
+                   "result['splice_insert']['avail_num'] == old(self.splice_insert.avail_num) and "
+                   "result['splice_insert']['avails_expected'] == old(self.splice_insert.avails_expected) and "
+                   "result['splice_insert']['unique_program_id'] == old(self.splice_insert.unique_program_id) and "
+                   "result['splice_insert']['break_duration']['duration'] == old(self.splice_insert.break_duration.duration) and "
+                   "result['splice_insert']['break_duration']['auto_return'] == old(self.splice_insert.break_duration.auto_return) and "
+                   "(is_unset(result['splice_insert']['splice_time']) if old(self.splice_insert.splice_immediate_flag) else "
+                   "result['splice_insert']['splice_time']['pts'] == old(self.splice_insert.splice_time.pts))"),
+        ('descriptors', "length(result['descriptors']) == 1 and result['descriptors'][0]['tag'] == 2 and "
+                        "result['descriptors'][0]['identifier'] == 1129661769 and "
+                        "result['descriptors'][0]['segmentation_event_id'] == old(self.descriptors[0].segmentation_event_id) and "
+                        "result['descriptors'][0]['segmentation_type'] == old(self.descriptors[0].segmentation_type)"),
+        ('consumed', 'consumed(__bits__)'),
+    ],
+    witness_terms=lambda w: (lambda ev: {k: ev(z3.Int(k)) for k in (
+        'sap_type', 'protocol_version', 'encryption_algorithm', 'pts_adjustment', 'cw_index', 'tier', 'splice_event_id', 'pts',
+        'duration', 'unique_program_id', 'avail_num', 'avails_expected', 'segmentation_event_id', 'device_restrictions',
+        'segmentation_duration', 'segmentation_type', 'segment_num', 'segments_expected', 'sub_segment_num',
+        'sub_segments_expected')} | {k: ev(z3.Bool(k)) for k in (
+            'out_of_network', 'immediate', 'auto_return', 'delivery_not_restricted', 'web_delivery_allowed',
+            'no_regional_blackout', 'archive_allowed', 'duration_none')}),
+)
+
 INLINE = [Contract(key=f'{D}/splice_time.py:SpliceTime.encode', props=[], inline=True, variant='inline'),
           Contract(key=f'{D}/splice_time.py:SpliceTime.parse', props=[], inline=True),
           Contract(key=f'{D}/break_duration.py:BreakDuration.encode', props=[], inline=True, variant='inline'),
-          Contract(key=f'{D}/break_duration.py:BreakDuration.parse', props=[], inline=True)]
+          Contract(key=f'{D}/break_duration.py:BreakDuration.parse', props=[], inline=True),
+          Contract(key=f'{D}/splice_insert.py:SpliceInsert.encode', props=[], inline=True, variant='inline'),
+          Contract(key=f'{D}/splice_insert.py:SpliceInsert.parse', props=[], inline=True),
+          Contract(key=f'{D}/binarysignal.py:BinarySignal.encode_fields', props=[], inline=True),
+          Contract(key=f'{D}/binarysignal.py:BinarySignal.parse_payload', props=[], inline=True),
+          Contract(key=f'{D}/descriptors.py:SpliceDescriptor.encode', props=[], inline=True),
+          Contract(key=f'{D}/descriptors.py:SpliceDescriptor.parse', props=[], inline=True),
+          Contract(key=f'{D}/descriptors.py:SegmentationDescriptor.encode_fields', props=[], inline=True, variant='inline'),
+          Contract(key=f'{D}/descriptors.py:SegmentationDescriptor.parse_fields', props=[], inline=True)]
 
 NEVER = lambda frame: False       # top-level (sequel) variants are never used at call sites: the inline ones are
 
@@ -203,17 +305,19 @@ NEVER = lambda frame: False       # top-level (sequel) variants are never used a
 GROUP = Group(
     name='scte35', world=world,
     contracts=[splice_time('unspecified'), splice_time('specified'), BREAK_DURATION, splice_insert(True), splice_insert(False),
-               SEGMENTATION, SEGMENTATION_COMPONENTS, TIME_DESCRIPTOR] + INLINE,
+               SEGMENTATION, SEGMENTATION_COMPONENTS, TIME_DESCRIPTOR, SIGNAL] + INLINE,
     assumptions=['C14: BitsFieldWriter / BitsFieldReader (dashlive/utils/fio, over the bitstring package) are modelled by a bit '
                  'trace (pyvc/models/bittrace.py), not verified; a one-bit read returns a bool',
                  'C14: SpliceInsert is proved for program splices (splice_time present, no components) that are not cancelled; '
                  'SegmentationDescriptor for program segmentation without UPID, not cancelled'],
     trusted=['pyvc/models/bittrace.py'],
-    not_covered=['MpegSectionTable / BinarySignal framing (section_length, splice_command_length, descriptor_loop_length '
-                 'back-patches) and the CRC-32; SpliceDescriptor tag/length framing and class dispatch; component lists; UPIDs; '
-                 'SpliceSchedule; DTMF / audio descriptors'],
+    not_covered=['signals other than splice_insert + one segmentation descriptor (time_signal, splice_schedule, private commands, '
+                 'encrypted packets), non-empty component lists, UPIDs, DTMF / audio / avail descriptors; descriptor class dispatch '
+                 '(SpliceDescriptor.TAGS) is modelled for tag 2 only',
+                 'the CRC-32 itself: crccheck is external; only its residue property crc(d || crc(d)) == 0 is assumed'],
 )
 
 for _c in GROUP.contracts:
-    if not _c.inline and _c.qual in ('SpliceTime.encode', 'BreakDuration.encode'):
+    if not _c.inline and _c.qual in ('SpliceTime.encode', 'BreakDuration.encode', 'SpliceInsert.encode',
+                                     'SegmentationDescriptor.encode_fields'):
         _c.applies = NEVER
